@@ -60,6 +60,12 @@ func (in *Interp) ufBytes(fam string, outLen int, args ...[]*Term) []*Term {
 		f = &ufFamily{injective: strings.HasPrefix(fam, "inj/")}
 	}
 	shape := shapeOf(fam, outLen, args)
+	// reuse a syntactically identical earlier application
+	for _, p := range in.ufApps[fam] {
+		if p.shape == shape && sameArgs(p.args, args) {
+			return p.res
+		}
+	}
 	app := &ufApp{fam: fam, shape: shape, args: args}
 	if cargs, ok := allConcrete(args); ok && f.native != nil {
 		r := f.native(cargs)
@@ -72,25 +78,13 @@ func (in *Interp) ufBytes(fam string, outLen int, args ...[]*Term) []*Term {
 		}
 		app.conc = true
 	} else {
-		var targs []*Term
-		for _, a := range args {
-			if len(a) > 0 {
-				targs = append(targs, in.concatBytes(a))
-			}
-		}
-		if outLen > 0 {
-			t := in.tt.UF("uf!"+shape, 8*outLen, targs...)
-			app.res = make([]*Term, outLen)
-			for i := 0; i < outLen; i++ {
-				hi := 8*(outLen-i) - 1
-				app.res[i] = in.tt.Extract(t, hi, hi-7)
-			}
-		}
-	}
-	// reuse identical earlier application
-	for _, p := range in.ufApps[fam] {
-		if p.shape == shape && sameArgs(p.args, args) {
-			return p.res
+		// Ackermann encoding: the result bytes are fresh variables; functional consistency with
+		// every other application of the same shape is added pairwise (addUFAxioms). This keeps
+		// every query in plain QF_BV over 8-bit variables (no wide uninterpreted functions).
+		in.nufapp++
+		app.res = make([]*Term, outLen)
+		for i := 0; i < outLen; i++ {
+			app.res[i] = in.tt.Var(fmt.Sprintf("uf!%s!%d[%d]", shape, in.nufapp, i), 8)
 		}
 	}
 	in.addUFAxioms(f, app)
@@ -136,10 +130,8 @@ func (in *Interp) addUFAxioms(f *ufFamily, app *ufApp) {
 		if sameShape {
 			ae := in.argsEq(p.args, app.args)
 			re := in.bytesEq(p.res, app.res)
-			// functional consistency (needed when one side was computed natively)
-			if p.conc || app.conc {
-				in.addAxiom(tt.Implies(ae, re))
-			}
+			// functional consistency
+			in.addAxiom(tt.Implies(ae, re))
 			if f.injective {
 				in.addAxiom(tt.Implies(re, ae))
 			}
